@@ -132,4 +132,7 @@ def sim_case(draw, schedulers, tier="quick", max_pipes=12, single_seg=False, for
             ps["ops"] = ps["ops"][:1]
         arrivals.append([t, ps])
     arrivals.sort(key=lambda a: a[0])
-    return {"params": params, "arrivals": arrivals}
+    case = {"params": params, "arrivals": arrivals}
+    if draw(st.integers(0, 5)) == 0:
+        case["via_toml"] = True      # parameters handed over as a TOML file instead of a dict
+    return case
